@@ -33,7 +33,7 @@ func drain(m *machine.M) (l, r []float32) {
 }
 
 type c20Pace struct {
-	Phase  int  `json:"phase"`  // machine cycles run (sound off->on toggled at that point) before counting
+	Phase  int  `json:"phase"` // machine cycles run (sound off->on toggled at that point) before counting
 	Cycles int  `json:"cycles"`
 	Off    bool `json:"sound_off"`
 	NoOut  bool `json:"no_outputs"`
